@@ -38,7 +38,8 @@ ALGS = ["PowerMethod", "GradientMethod", "GradientMethod-acc", "GradientMethod-b
         "PDHG-acc", "PDHG-zero-l1-smallsigma", "PDHG-zero-box", "AltMin",
         "AugmentedLagrangianMethod", "ADMM", "SDMM", "SDMM-norm", "NewtonsMethod",
         "NewtonsMethod-bt", "GerchbergSaxton", "GradientMethod-sol0", "GradientMethod-nested",
-        "GradientMethod-iso", "GradientMethod-iso-acc"]
+        "GradientMethod-iso", "GradientMethod-iso-acc", "NewtonsMethod-zero",
+        "NewtonsMethod-zero-bt"]
 APPS = ["MaxEig", "LLS-CG", "LLS-CG-strided", "LLS-GM", "LLS-PDHG", "LLS-PDHG-smallsigma", "LLS-ADMM",
         "L2ConstrainedMinimization", "SenseRecon", "EspiritCalib", "TotalVariationRecon",
         "JsenseRecon", "L1WaveletRecon"]
@@ -259,6 +260,12 @@ def make_alg(kind, rng, mi):
         f = lambda v: 0.5 * np.sum((M @ v - y) ** 2) + lam / 2 * np.sum(v ** 2)   # noqa: E731
         Hi = np.linalg.inv(H)
         x = np.zeros(n)
+        if "zero" in kind:
+            # zero data and zero start: the gradient vanishes exactly - a genuine fixed point,
+            # the solver must stop (not raise) and leave x alone
+            y = np.zeros_like(y)
+            gradf = lambda v: M.T @ (M @ v) + lam * v                   # noqa: E731
+            f = lambda v: 0.5 * np.sum((M @ v) ** 2) + lam / 2 * np.sum(v ** 2)   # noqa: E731
         bt = kind.endswith("bt")
         a = A_.NewtonsMethod(gradf, lambda v: (lambda w: Hi @ w), x, beta=0.5 if bt else 1,
                              f=f if bt else None, max_iter=mi, tol=0)
@@ -451,6 +458,24 @@ def run_app(case):
                         wit, mech="output:" + name)
     obs = {"updates": nup, "early": int(nup < mi)}
     tags = []
+    # a second run() on the finished App: the algorithm is done, so no further update may be
+    # performed and the same solution is returned
+    if name not in ("JsenseRecon",):
+        it0 = top.iter
+        keep = np.array(out, copy=True) if isinstance(out, np.ndarray) else out
+        with alg_mon.budget(extra=3):
+            out2 = app.run()
+        nup2 = counts.get(id(top), 0)
+        if nup2 != nup or top.iter != it0:
+            return violated(sig, "a second %s.run() on the finished App performed %d more "
+                            "update(s) (iter %d -> %d, max_iter=%d)" % (
+                                name, nup2 - nup, it0, top.iter, mi), wit,
+                            mech="rerun-updates:" + name, obs=obs)
+        same = np.allclose(np.asarray(out2), np.asarray(keep), rtol=1e-9, atol=0,
+                           equal_nan=True) if isinstance(keep, np.ndarray) else out2 == keep
+        if not same:
+            return violated(sig, "a second %s.run() on the finished App returned another "
+                            "solution" % name, wit, mech="rerun-output:" + name, obs=obs)
     if nup < mi and name not in ("EspiritCalib", "JsenseRecon"):
         tags.append("early-stop:" + name)
         if not getattr(top, "not_positive_definite", False):
